@@ -147,6 +147,9 @@ def gen_config(seed, tier='quick', family=None):
             'measure_at_checkpoints': wl.random() < 0.5,
             'max_hours': wl.choice([None, None, 1.0]),
             'combine': wl.choice([False, False, True]),
+            # 'default' solves the small local problems of these system sizes by exact diagonalisation; with 'lanczos'
+            # the Lanczos tolerances that DMRG adapts to the truncation error during the run come into play
+            'diag_method': wl.choice(['default', 'lanczos']),
         })
         # chi_list: ramp the bond dimension up during the run; a value of None means "chi_max at initialisation"
         r = wl.random()
@@ -222,6 +225,8 @@ def build_params(cfg, out_name='results'):
               'max_trunc_err': None}  # small chi on purpose: do not abort on the truncation-error sanity check
         if cfg.get('combine') and fam != 'vumps':
             ap['combine'] = True
+        if cfg.get('diag_method', 'default') != 'default' and fam != 'vumps':
+            ap['diag_method'] = cfg['diag_method']
         if cfg.get('chi_list'):
             ap['chi_list'] = {int(k): v for k, v in cfg['chi_list']}
         if cfg['mixer']:
@@ -356,6 +361,8 @@ class World:
         self.clock = None
         self.probes = {}
         self.checkpoints_seen = 0
+        self.wall_end = None  # wall-clock time at which the previous simulated process ended
+        self.downtime = 0.0
         self.violations = []  # raised by the seams themselves (reported by the driver after the segment)
         self.last_load_error = None
 
@@ -460,6 +467,11 @@ class World:
                 self.kill_after_sigint = (fault['kill_after_ops'], fault.get('tear'))
         self.clock = SimClock(clock_seed, self.cfg['clock'], on_read=self._deliver)
         self.clock.max_reads = max_clock_reads
+        if self.wall_end is not None:
+            # the wall clock goes on while the process is dead: the restarted process starts later by a down time
+            # of a second, an hour or two days (a cluster job resubmitted the next day)
+            self.downtime = random.Random(clock_seed ^ 0x5DEECE66D).choice([1.0, 1.0, 3600.0, 172800.0])
+            self.clock.now = self.wall_end + self.downtime
         # hidden randomness owned by the simulated process: numpy's global generator and ARPACK's internal
         # start-vector generator (Fortran state that survives across calls within a real process)
         np.random.seed(clock_seed % (2**32))
@@ -516,6 +528,7 @@ class World:
                 ver_mod._get_git_revision = saved_git
                 math_mod.scipy = saved_scipy
                 signal.signal(signal.SIGINT, old_handler)
+        self.wall_end = self.clock.now
         out['ops_in_segment'] = fs.n_mut - base
         out['clock_reads'] = self.clock.reads
         out['delivery_points'] = self.delivery_points
